@@ -50,7 +50,7 @@ def unwrapX {α} (site : String) (x : Except XErr α) : Except GErr α :=
   match x with
   | .ok v => .ok v
   | .error (.need e) => .error (.error ("need:" ++ ofB e))
-  | .error e => .error (.panic (site ++ ":" ++ xerrKind e))
+  | .error e => .error (.error (site ++ ":" ++ xerrKind e))   -- reported with `?` (these sites used to `.unwrap()`)
 
 /-- `VarExportSpec::apply_env` -/
 def applyExport (ev : EvalExpr) (flat : Flat) (e : VarExport) : Except GErr VarExport := do
@@ -171,7 +171,7 @@ def patchBuild (npr : NinjaRule) (m : Module) (srcdir : String) (patches : List 
 
 /-- `.unwrap()` on the patch rule's `to_ninja`: a reported error becomes a panic -/
 def remapPatchErr : GErr → GErr
-  | .error k => if k.startsWith "need:" then .error k else .panic ("download.rs:patch to_ninja:" ++ k)
+  | .error k => if k.startsWith "need:" then .error k else .error ("download.rs:patch to_ninja:" ++ k)
   | e => e
 
 def patchRuleToNinja (ev : EvalExpr) (pr : Rule) (flat : Flat) : Except GErr NinjaRule :=
@@ -183,7 +183,7 @@ def patchRuleToNinja (ev : EvalExpr) (pr : Rule) (flat : Flat) : Except GErr Nin
 def patchEntries (ev : EvalExpr) (m : Module) (rules : List (String × Rule)) (flat : Flat)
     (srcdir : String) (vars : List (String × String)) (patches : List String) : Except GErr (List String) :=
   match rulesByName rules "GIT_PATCH" with
-  | none => .error (.panic "download.rs:missing GIT_PATCH rule")
+  | none => .error (.error "download.rs:missing GIT_PATCH rule")
   | some pr =>
     match patchRuleToNinja ev pr flat with
     | .error e => .error e
@@ -203,7 +203,7 @@ def withPatchEntries (ev : EvalExpr) (m : Module) (rules : List (String × Rule)
 def gitDownloadEntries (ev : EvalExpr) (m : Module) (d : Download) (rules : List (String × Rule)) (flat : Flat)
     (commit : String) : Except GErr (List String) :=
   match rulesByName rules "GIT_DOWNLOAD" with
-  | none => .error (.panic "download.rs:missing GIT_DOWNLOAD rule")
+  | none => .error (.error "download.rs:missing GIT_DOWNLOAD rule")
   | some dr =>
     match ruleToNinja ev dr flat with
     | .error e => .error e
@@ -342,7 +342,7 @@ def importedDepFiles (files : FileTable) : List Name → List String → Except 
   | d :: ds, acc =>
     match files.get? d with
     | some fs => importedDepFiles files ds (dedup (acc ++ fs))
-    | none => .error (.panic "generate.rs:imported build deps: no files for build dep")
+    | none => importedDepFiles files ds acc      -- a build dep that exports no files: nothing to wait for
 
 def importedOf (files : FileTable) : Option (List Name) → Except GErr (Option (List String))
   | none => .ok none
@@ -488,13 +488,13 @@ def compileStmts (st : Settings) (builder appName : Name) (rules : List (String 
     (mrules : List (String × NinjaRule)) (combined : Option (List String)) (localDeps : Option (List String))
     (srcTagfile : Option String) (srcpath : String) : Except GErr (String × List String) :=
   match pathExtension srcpath with
-  | none => .error (.panic "generate.rs:srcpath extension")
+  | none => .error (.error "generate.rs:no rule for expanded source")
   | some ext =>
     match lookupCompileRule rules mrules ext with
-    | none => .error (.panic "generate.rs:rule lookup after expansion")
+    | none => .error (.error "generate.rs:no rule for expanded source")
     | some rn =>
       match rn.1.out with
-      | none => .error (.panic "generate.rs:rule.out")
+      | none => .error (.error "generate.rs:rule has no out")
       | some out =>
         .ok (compileOut rn.2 combined localDeps srcTagfile srcpath
               (objectPath st builder appName rn.1 rn.2 (depsHashOf combined) out srcpath))
